@@ -35,7 +35,7 @@ func c13ASCII(s string) {
 func VerifC13FoldASCII() {
 	ns, nsub := 4, 2
 	if verifrt.Thorough() {
-		ns, nsub = 6, 3
+		ns, nsub = 5, 2
 	}
 	s := verifrt.String(verifrt.Len(ns))
 	sub := verifrt.String(verifrt.Len(nsub))
